@@ -250,7 +250,7 @@ def conv_inst(name, L, opts="", defs=(), timeout=600, functions=None):
     inst.functional_only = True
     return inst
 
-def conv_family(tier, seed, meta=False, err=False, kinds=None, per_class=None, defs=("CHECK_KEYS",), sysl=True, nlines=(2, 3), delims=None, comments=None, python=False, tag="conv", sys_quick=28):
+def conv_family(tier, seed, meta=False, err=False, kinds=None, per_class=None, defs=("CHECK_KEYS",), sysl=True, nlines=(2, 3), delims=None, comments=None, python=False, tag="conv", sys_quick=28, maxlen=None):
     import random
     rng = random.Random(1000 + seed)
     insts = []
@@ -275,7 +275,7 @@ def conv_family(tier, seed, meta=False, err=False, kinds=None, per_class=None, d
                 if err and L.err is None: continue
                 layouts.append(("rnd%d" % r, L))
             for tg, L in layouts:
-                if not L.valid() or len(L.tpl) == 0 or len(L.tpl) > (26 if tier == "quick" else 34): continue
+                if not L.valid() or len(L.tpl) == 0 or len(L.tpl) > (maxlen or (26 if tier == "quick" else 34)): continue
                 if not err and L.err is not None: continue
                 insts.append(conv_inst("%s-%s-%s-%s" % (tag, dn, cn, tg), L, opts="PYTHON_STYLE=1" if python else "", defs=defs))
     return insts
@@ -290,7 +290,7 @@ def c02(tier):
 NAMESETS = {"A": ["9.conf", "x.con", "10.conf"], "B": ["a.conf", ".conf", "B.conf"], "C": ["9.conf", "a.conf", ".h.conf"]}
 ENTRYNAMES = ["readDirsHistory", "readDirsHistoryWithCallback", "readDirs", "readDirsWithCallback", "readConfig", "readConfigWithCallback"]
 
-def d_inst(entry, layers, nameset, fullpat, suffix="conf", faults=0, timeout=150, keysel=None):
+def d_inst(entry, layers, nameset, fullpat, suffix="conf", faults=0, timeout=150, keysel=None, failfile=-1, failkind=1):
     """fullpat: list per layer of [main present, dropin dir present, presence per candidate...]"""
     pattern = [row[2:] for row in fullpat]
     mainp = [row[0] for row in fullpat]; dirp = [row[1] for row in fullpat]
@@ -312,7 +312,7 @@ def d_inst(entry, layers, nameset, fullpat, suffix="conf", faults=0, timeout=150
     if keysel is None:
         import random, zlib
         keysel = "".join(random.Random(zlib.crc32(str(fullpat).encode())).choice("12") for _ in range(nfiles0))
-    hdr += 'static const char KEYSEL[] = "%s";\n' % keysel
+    hdr += 'static const char KEYSEL[] = "%s";\n#define FAILFILE %d\n#define FAILKIND %d\n' % (keysel, failfile, failkind)
     ldirs = ["/u", "/e"] if layers == 2 else ["/u", "/r", "/e"]
     mains = [d + "/c" + sufdot for d in ldirs]
     hdr += "static const char *MAINPATH[LAYERS] = {%s};\nstatic const char *DDPATH[LAYERS] = {%s};\nstatic const char *FPATH[LAYERS][NF] = {%s};\n" % (
@@ -321,7 +321,7 @@ def d_inst(entry, layers, nameset, fullpat, suffix="conf", faults=0, timeout=150
     pat = "_".join("".join(str(b) for b in row) for row in fullpat)
     nfiles = layers * (nf + 1)
     d = {"STRCAP": 40, "VCAP": max(nfiles + 2, 6), "VFS_MAXNODES": layers * (nf + 3) + 1, "VFS_CONTENT": 10, "VFS_MAXEV": 48, "CALLOC_N": max(nfiles + 2, 6)}
-    name = "d-%s-L%d-%s-%s-suf%s%s" % (ENTRYNAMES[entry], layers, nameset, pat, ("NULL" if suffix is None else "empty" if suffix == "" else suffix.replace(".", "dot")), "-faults" if faults else "")
+    name = "d-%s-L%d-%s-%s-suf%s%s" % (ENTRYNAMES[entry], layers, nameset, pat, ("NULL" if suffix is None else "empty" if suffix == "" else suffix.replace(".", "dot")), ("-fail%d%s" % (failfile, "xrpo"[failkind])) if faults else "")
     uw = lib_unwinds(nfiles * 2 + 2, 3, alloc=nfiles * 2 + 2) + [
         (r"readconfig\.c", r"for \(int i = parse_dirs_count", layers + 1), (r"readconfig\.c", r"i < parse_dirs_count", layers + 1), (r"readconfig\.c", r"i < conf_count", 2),
         (r"readconfig\.c", r"k < \*size-1", nfiles + 1), (r"mergefiles\.c", r"i < num_dirs", nf + 3), (r"mergefiles\.c", r"k < num_dirs", nf + 3),
@@ -332,7 +332,7 @@ def d_inst(entry, layers, nameset, fullpat, suffix="conf", faults=0, timeout=150
                     flags=["--max-field-sensitivity-array-size", "300"],
                     functions="econf_%s, readConfigWithCallback, readConfigHistoryWithCallback, traverse_conf_dirs, check_conf_dir, merge_econf_files, econf_mergeFiles (+ contract of read_file_with_callback)" % ENTRYNAMES[entry],
                     bounds="%d layers; concrete pattern per layer [main file: 0 none/1 with content/2 empty/3 link to /dev/null, drop-in dir exists, presence of each candidate of %s] = %s; every file defines one key (k1 or k2, concrete per instance) with a symbolic value; suffix argument %r; %s"
-                           % (layers, names, pat, suffix, "verdict per file symbolic in {ok, callback rejects, malformed, foreign owner}" if faults else "all files acceptable"),
+                           % (layers, names, pat, suffix, ("file #%d (0..L-1 main files, then drop-ins layer by layer) fails: %s" % (failfile, ["", "callback rejects it", "malformed content", "foreign owner under econf_requireOwner"][failkind])) if faults else "all files acceptable"),
                     expect_reach=[], sample_decoder=lambda inp, inst, L=layers: {"contentless_main_is_empty_file": [inp[3 * l] & 1 if 3 * l < len(inp) else 0 for l in range(L)], "value_seed_per_layer": [inp[3 * l + 2] if 3 * l + 2 < len(inp) else 0 for l in range(L)], "key_bits": list(inp[-3:-1]), "verdicts": list(inp[3 * L:3 * L + L * 4])})
 
 def d_patterns(layers, nf, n, rng):
@@ -352,6 +352,79 @@ def d_patterns(layers, nf, n, rng):
             if p[l * w] and rng.random() < 0.4: p[l * w] = rng.choice([2, 3])
         if p not in out: out.append(p)
     return [[p[l * w:(l + 1) * w] for l in range(layers)] for p in out[:n]]
+
+def consulted(layers, nameset, fullpat, suffix="conf"):
+    """reference consulted sequence as file indices (0..L-1 main files, then drop-ins layer by layer)"""
+    names = NAMESETS[nameset]; nf = len(names)
+    sufdot = "" if not suffix else (suffix if suffix.startswith(".") else "." + suffix)
+    seq = []
+    for l in range(layers - 1, -1, -1):
+        if fullpat[l][0]: seq.append(l); break
+    for l in range(layers):
+        if not fullpat[l][1]: continue
+        for n, c in sorted((n, c) for c, n in enumerate(names)):
+            if fullpat[l][2 + c] and len(n) > len(sufdot) and n.endswith(sufdot): seq.append(layers + l * nf + c)
+    return seq
+
+def fault_insts(tier, entries, kinds, seed, per_entry):
+    import random
+    rng = random.Random(900 + seed)
+    insts = []
+    for entry in entries:
+        layers = 2 if entry < 4 else 3
+        pats = d_patterns(layers, 3, 5 + per_entry, rng)
+        pats = [p for p in pats if len(consulted(layers, "A", p)) >= 2][:per_entry]
+        for pat in pats:
+            seq = consulted(layers, "A", pat)
+            picks = {seq[0], seq[-1], seq[len(seq) // 2]}
+            if tier == "quick": picks = set(rng.sample(sorted(picks), min(2, len(picks))))
+            for ff in sorted(picks):
+                for fk in kinds:
+                    if fk == 1 and entry not in (1, 3, 5): continue
+                    insts.append(d_inst(entry, layers, "A", pat, faults=1, failfile=ff, failkind=fk, timeout=300))
+    return insts
+
+D_ASSUME = ["decomposition (DESIGN.md 5.3): read_file_with_callback is replaced by its contract in the CBMC query (established for the real reader by the reader harness r_reader.c); the native replay of every witness runs the real reader and parser on a real directory tree",
+            "tree shape (which files exist, which file fails and how) is concrete per instance (enumerated / sampled by VERIF_SEED); stored values are symbolic",
+            "scandir model delivers '.', '..' and the present children in reverse registration order (never the sorted order) and sorts with the caller's comparator; alphasort = strcmp (C locale)"]
+
+def c06(tier):
+    seed = int(__import__("os").environ.get("VERIF_SEED", "0") or 0)
+    insts = [r_inst(1), r_inst(4)]
+    insts += fault_insts(tier, (1, 3, 5), (1,), seed, 3 if tier == "quick" else 12)
+    import random
+    rng = random.Random(600 + seed)
+    for entry in (1, 3, 5):
+        layers = 2 if entry < 4 else 3
+        for pi, pat in enumerate(d_patterns(layers, 3, 3 if tier == "quick" else 16, rng)):
+            insts.append(d_inst(entry, layers, "A", pat, keysel="first-unique" if pi < 5 else None))
+    return {"instances": insts, "assumptions": COMMON_ASSUME + D_ASSUME, "explanation": "callback consulted for every file before use, in order, with unchanged data pointer; one rejection yields nothing (reader harness + layered-read harness with an injected rejection)"}
+
+def c16(tier):
+    seed = int(__import__("os").environ.get("VERIF_SEED", "0") or 0)
+    insts = [r_inst(1), r_inst(4)]
+    insts += fault_insts(tier, range(6), (3,), seed, 2 if tier == "quick" else 10)
+    return {"instances": insts, "assumptions": COMMON_ASSUME + D_ASSUME + ["ownership and symlink attributes are modelled by lstat results (kernel semantics out of scope); econf_requirePermissions is not part of the statement"],
+            "explanation": "owner/group/symlink restrictions decided on the real reader for every attribute/restriction combination; every entry point aborts on a refused file"}
+
+def c12(tier):
+    import random
+    seed = int(__import__("os").environ.get("VERIF_SEED", "0") or 0)
+    rng = random.Random(1200 + seed)
+    insts = []
+    pats2 = d_patterns(2, 3, 4 if tier == "quick" else 24, rng)
+    for pi, pat in enumerate(pats2):
+        for entry in (0, 1, 2, 3):
+            insts.append(d_inst(entry, 2, "A", pat, keysel="first-unique" if pi < 5 else None))
+        # the layered read configured with the same two directories
+        insts.append(d_inst(4, 2, "A", pat, keysel="first-unique" if pi < 5 else None))
+        insts.append(d_inst(5, 2, "A", pat, keysel="first-unique" if pi < 5 else None))
+    for suf in (".conf", None, ""):
+        pat = d_patterns(2, 3, 6, rng)[-1]
+        for entry in (0, 2, 3, 5):
+            insts.append(d_inst(entry, 2, "B", pat, suffix=suf))
+    return {"instances": insts, "assumptions": COMMON_ASSUME + D_ASSUME + ["agreement of the entry points is shown through the common reference: every entry point is compared with the same reference consulted sequence / reference fold on the same tree instance"],
+            "explanation": "all six entry points on identical trees against one reference; history = consulted sequence with own path and content"}
 
 def c01(tier):
     import random
@@ -380,7 +453,33 @@ def c01(tier):
         "scandir model delivers '.', '..' and the present children in nondeterministic (forward or reverse) order and sorts with the caller's comparator; alphasort = strcmp (C locale)"],
         "explanation": "bounded model checking of the layered read (history builder, drop-in scan, masking, fold) against the reference consulted sequence and reference merge"}
 
-REGISTRY = {"C01": c01, "C02": c02, "C10": c10, "C11": c11, "C03": c03, "C04": c04, "C08": c08, "C09": c09}
+def r_inst(kind, expect=None):
+    return small("reader-kind%d" % kind, "r_reader.c", {"KIND": kind, "STRCAP": 16, "VFS_CONTENT": 6, "VFS_MAXNODES": 2, "VCAP": 3}, E=2, G=2, unwind=17,
+                 extra_uw=[(r"getfilecontents\.c", r"while \(getline", 3), (r"r_reader\.c", r"i < VFS_MAXEV", 26)], timeout=300,
+                 functions="econf_readFileWithCallback, read_file_with_callback, read_file, econf_requireOwner, econf_requireGroup, econf_followSymlinks, econf_reset_security_settings",
+                 bounds="one file of kind %s; owner/group in {0,1}; every combination of owner/group/no-symlink restriction with symbolic required ids, optional reset, optional callback with symbolic verdict; one symbolic value byte" % {0: "absent", 1: "regular", 4: "symlink to a regular file"}[kind],
+                 expect=expect)
+
+def c13(tier):
+    seed = int(__import__("os").environ.get("VERIF_SEED", "0") or 0)
+    insts = conv_family(tier, seed, err=True, sysl=False, per_class=3 if tier == "quick" else 14, tag="err", defs=(), delims=["eq", "coleq", "sp", "speq"] if tier == "quick" else None,
+                        nlines=(1, 2, 2) if tier == "quick" else (1, 2, 3), maxlen=16 if tier == "quick" else 30)
+    insts += fault_insts(tier, range(6), (2,), seed, 1 if tier == "quick" else 8)
+    insts.append(r_inst(0, expect=["restrictions lifted by reset"]))
+    insts.append(small("errstring", "e_errstring.c", {}, unwind=64, functions="econf_errString", bounds="every code 0..24 of enum econf_err (symbolic)", leak=False))
+    return {"instances": insts, "assumptions": COMMON_ASSUME + D_ASSUME + ["malformed-line layouts are generated like the conventional ones (concrete layout, symbolic characters)"],
+            "explanation": "parse errors: specific code, file and 1-based line, nothing partial; n-th drop-in failure aborts the layered read; missing file; code/message table"}
+
+def c20(tier):
+    seed = int(__import__("os").environ.get("VERIF_SEED", "0") or 0)
+    insts = fault_insts(tier, range(6), (1, 2, 3), seed, 1 if tier == "quick" else 6)
+    insts += [r_inst(1), r_inst(0, expect=["restrictions lifted by reset"])]
+    insts += step_insts(0, "quick", 2)[:8]
+    return {"instances": insts, "assumptions": COMMON_ASSUME + D_ASSUME + ["leak check: CBMC --memory-leak-check (tracks one nondeterministically chosen allocation, i.e. every allocation) on all harnesses; double free / use after free by the built-in pointer checks",
+            "uninitialised reads: fresh heap memory has arbitrary contents in CBMC, so a read of a never-written field makes the harness assertions on it fail"],
+            "explanation": "every early-return path of the layered read with a failure injected at a chosen consulted file, plus API histories, under CBMC's leak / double-free / use-after-free checks"}
+
+REGISTRY = {"C06": c06, "C12": c12, "C13": c13, "C16": c16, "C20": c20, "C01": c01, "C02": c02, "C10": c10, "C11": c11, "C03": c03, "C04": c04, "C08": c08, "C09": c09}
 
 def get(prop, tier):
     if prop not in REGISTRY:
